@@ -744,6 +744,39 @@ fn exercise_convert(map: &Map, endian: RunTimeEndian, address_size: u8, b: &mut 
         }
         Err(_) => b.errors += 1,
     }
+    // the filtered conversion (every third entry required) and its writing
+    {
+        let limit = 4 * map.values().map(|v| v.len() as u64).sum::<u64>() + 64;
+        let run = || -> Result<(), ()> {
+            let mut filter = w::FilterUnitSection::new(&dwarf).map_err(|_| ())?;
+            let mut k = 0u64;
+            while let Some(mut unit) = filter.read_unit().map_err(|_| ())? {
+                let mut entry = unit.null_entry();
+                while unit.read_entry(&mut entry).map_err(|_| ())? {
+                    k += 1;
+                    if k % 3 == 1 {
+                        unit.require_entry(entry.offset());
+                    }
+                    if k > limit {
+                        return Err(());
+                    }
+                }
+            }
+            let mut out = w::Dwarf::new();
+            {
+                let mut conv = out.convert_with_filter(filter).map_err(|_| ())?;
+                while let Some((mut unit, root)) = conv.read_unit().map_err(|_| ())? {
+                    unit.convert(root, &ca).map_err(|_| ())?;
+                }
+            }
+            let mut sections = w::Sections::new(w::EndianVec::new(endian));
+            out.write(&mut sections).map_err(|_| ())?;
+            Ok(())
+        };
+        if run().is_err() {
+            b.errors += 1;
+        }
+    }
     let mut df = gimli::DebugFrame::new(map.get(".debug_frame").unwrap_or(&empty), endian);
     df.set_address_size(address_size);
     if let Ok(t) = w::FrameTable::from(&df, &ca) {
@@ -830,6 +863,28 @@ pub fn seed_sections(ch: &mut Choices, big_out: &mut bool, addr_out: &mut u8) ->
                         if let Some(info) = sections.get_mut(".debug_info") {
                             if soff + 5 <= info.len() {
                                 info[soff + 1..soff + 5].copy_from_slice(&bytes);
+                            }
+                        }
+                    }
+                }
+            }
+            // an eight-byte unit reference (DW_FORM_ref8) in a unit that does not start the section, overwritten with
+            // a value next to 2^64: unit offset + reference must not be computed unchecked
+            if ch.chance(50) && d.units.len() >= 2 {
+                if let Some(info) = sections.get_mut(".debug_info") {
+                    'outer: for ui in (1..d.units.len()).rev() {
+                        let start = asm.unit_offsets[ui];
+                        let end = asm.unit_offsets.get(ui + 1).copied().unwrap_or(info.len());
+                        for ((tu, _), (uoff, _)) in asm.positions.iter() {
+                            if *tu != ui || *uoff == 0 {
+                                continue;
+                            }
+                            let pat = if d.big { (*uoff as u64).to_be_bytes() } else { (*uoff as u64).to_le_bytes() };
+                            if let Some(at) = (start..end.saturating_sub(8)).find(|i| info[*i..*i + 8] == pat) {
+                                let v: u64 = ch.pick(&[u64::MAX, u64::MAX - 1, u64::MAX - start as u64 + 1, 1 << 63]);
+                                let bytes = if d.big { v.to_be_bytes() } else { v.to_le_bytes() };
+                                info[at..at + 8].copy_from_slice(&bytes);
+                                break 'outer;
                             }
                         }
                     }
@@ -1083,13 +1138,15 @@ fn check(ch: &mut Choices, cx: &mut Ctx) -> R {
         let endian = if big { RunTimeEndian::Big } else { RunTimeEndian::Little };
         // a unit whose root carries the expression as DW_AT_location (exprloc), followed by a chain of nested children
         let mut a = crate::enc::W::new(big);
-        a.uleb(1).uleb(0x11).u8(1).uleb(0x02).uleb(0x18).uleb(0).uleb(0);
+        a.uleb(1).uleb(0x11).u8(1).uleb(0x02).uleb(0x18).uleb(0x55).uleb(0x17).uleb(0).uleb(0);
         a.uleb(2).uleb(0x0b).u8(1).uleb(0).uleb(0);
         a.u8(0);
         let mut w = crate::enc::W::new(big);
         let tok = w.begin_length(false);
         w.u16(4).u32(0).u8(8);
         w.uleb(1).uleb(inner.len() as u64).bytes(&inner);
+        // DW_AT_ranges of the root: the list at offset 0 of .debug_ranges (below)
+        w.u32(0);
         for _ in 0..depth {
             w.uleb(2);
         }
@@ -1104,6 +1161,20 @@ fn check(ch: &mut Choices, cx: &mut Ctx) -> R {
         let mut l = crate::enc::W::new(big);
         l.uint(0x10, 8).uint(0x20, 8).u16(inner.len().min(0xffff) as u16).bytes(&inner[..inner.len().min(0xffff)]).uint(0, 8).uint(0, 8);
         map.insert(".debug_loc", l.buf);
+        {
+            // a range list with a long unbroken run of entries that iteration skips (empty ranges, base selections)
+            // before the one real range: skipping must not cost stack per entry
+            let mut r = crate::enc::W::new(big);
+            for k in 0..depth * 2 {
+                if k % 64 == 63 {
+                    r.uint(u64::MAX, 8).uint(0x1000, 8);
+                } else {
+                    r.uint(0x10, 8).uint(0x10, 8);
+                }
+            }
+            r.uint(0x10, 8).uint(0x20, 8).uint(0, 8).uint(0, 8);
+            map.insert(".debug_ranges", r.buf);
+        }
         let mut f = crate::enc::W::new(big);
         let tok = f.begin_length(false);
         f.u32(0xffff_ffff).u8(1).u8(0).uleb(1).sleb(-8).u8(16).u8(0x0f).uleb(inner.len() as u64).bytes(&inner);
